@@ -12,9 +12,10 @@ import copy
 
 
 class Lang:
-    def __init__(self, spec: dict):
+    def __init__(self, spec: dict, snapshot: bool = True):
         # private deep snapshot: the toolbox must never be able to disturb it
-        self.spec = copy.deepcopy(spec)
+        # (snapshot=False only inside the generators, on dicts nobody else has)
+        self.spec = copy.deepcopy(spec) if snapshot else spec
         self.assets = {a['name']: a for a in self.spec['assets']}
         self.order = [a['name'] for a in self.spec['assets']]
         self.parent = {a['name']: a['superAsset'] for a in self.spec['assets']}
@@ -100,11 +101,20 @@ class Lang:
         return out
 
     # ---- step inheritance fold ----------------------------------------------
-    def steps(self, t):
+    def step_names(self, t):
+        """names of the steps t defines or inherits (no copying)"""
+        out = []
+        for x in reversed(self.ancestors(t)):
+            for s in self.assets[x]['attackSteps']:
+                if s['name'] not in out:
+                    out.append(s['name'])
+        return out
+
+    def steps(self, t, copy_result=False):
         """Root-down fold: '->' replaces, '+>' appends, no reaches: untouched.
         Returns an ordered dict name -> step definition (deep private copy)."""
         if t in self._fold_cache:
-            return copy.deepcopy(self._fold_cache[t])
+            return copy.deepcopy(self._fold_cache[t]) if copy_result else self._fold_cache[t]
         chain = list(reversed(self.ancestors(t)))
         out = {}
         for x in chain:
@@ -123,7 +133,7 @@ class Lang:
                     cur['reaches']['stepExpressions'].extend(
                         copy.deepcopy(s['reaches']['stepExpressions']))
         self._fold_cache[t] = out
-        return copy.deepcopy(out)
+        return copy.deepcopy(out) if copy_result else out
 
     def defenses(self, t):
         """{defense name: default} for type t (1.0 iff declared Enabled)"""
